@@ -99,12 +99,18 @@ def build(active_known=frozenset()):
     pack.common_setup.append(R.setup)
     pack.trust("str.translate(table) is the character-wise homomorphism of its table; ''.join(list) concatenates the list's strings in order")
     pack.trust("StreamReader.peek / next_char / advance / pushback behave as proved in the C16 pack (their contracts are used here, not their bodies)")
-    pack.assume("only the string codec is covered: numbers, symbols, keywords, collections, regex, instants, metadata and *print-dup* printing are not under contract")
+    pack.assume("covered: the string codec, nil / booleans / keywords / symbols / special floats, the collection printers, and the reader of numbers; the printers of numbers, regex, "
+                "byte strings, instants, UUIDs, namespace maps and *print-dup* printing are not under contract")
 
     # the StreamReader operation contracts proved in C16, assumed at call sites here
     for c in R.build(active_known=frozenset()).contracts:
         if c.modular and c.key.startswith("basilisp.lang.reader:StreamReader."):
             c.spec_only = True
+            c.pack = pack
+            pack.contracts.append(c)
+        elif c.key == "basilisp.lang.reader:_read_num":
+            # the reader of numbers is under one contract, stated in the C16 pack and discharged in both: C16 needs its exception
+            # classes, C03 that floats in scientific notation come back as floats and decimals as the exact decimal of their text
             c.pack = pack
             pack.contracts.append(c)
 
